@@ -13,7 +13,7 @@ Output protocol of drivers (stdout lines):
   VERIF-CASES fn=<fn> n=<count>
 """
 import glob
-import json
+import json, signal
 import os
 import re
 import shutil
@@ -271,10 +271,21 @@ def kani_run_harness(g, hname, meta, playback=False):
     cmd = ['cargo', 'kani', '-p', g['crate'], '--harness', hname, '-Z', 'function-contracts', '-Z', 'stubbing', '--output-format', 'terse']
     if playback:
         cmd += ['-Z', 'concrete-playback', '--concrete-playback=inplace']
+    # own process group: on a time-out the whole tree (cargo -> kani-driver -> cbmc) is killed, not only cargo - a cbmc left
+    # behind keeps a core and up to tens of GB for hours
+    proc = subprocess.Popen(cmd, cwd=KANI_WORK, env=kani_env(), stdout=subprocess.PIPE, stderr=subprocess.PIPE, text=True, start_new_session=True)
     try:
-        p = subprocess.run(cmd, cwd=KANI_WORK, env=kani_env(), capture_output=True, text=True, timeout=int(meta.get('timeout', 900)))
-        out = p.stdout + '\n' + p.stderr
+        so, se = proc.communicate(timeout=int(meta.get('timeout', 900)))
+        out = so + '\n' + se
     except subprocess.TimeoutExpired:
+        try:
+            os.killpg(proc.pid, signal.SIGKILL)
+        except Exception:
+            proc.kill()
+        try:
+            proc.communicate(timeout=30)
+        except Exception:
+            pass
         return {'timeout': True, 'cmd': ' '.join(cmd), 'wall': round(time.time() - t0, 1)}
     res = {'ok': 'VERIFICATION:- SUCCESSFUL' in out, 'failed': 'VERIFICATION:- FAILED' in out, 'uncovered': re.findall(r'cover.*UNSATISFIABLE', out),
            'out': out, 'wall': round(time.time() - t0, 1), 'cmd': ' '.join(cmd), 'witness': None}
